@@ -1,6 +1,7 @@
 package harness
 
 import (
+	"bytes"
 	"context"
 	"errors"
 	"fmt"
@@ -88,6 +89,7 @@ func tokenActions(tok string) []string {
 }
 
 type ctxMarkKey struct{}
+type detachedKey struct{}
 
 // handle is the scripted operation handler.
 func (w *serverWorld) handle(ctx context.Context, p *payloads.ActivateRequestPayload) (*payloads.ActivateResponsePayload, error) {
@@ -98,9 +100,15 @@ func (w *serverWorld) handle(ctx context.Context, p *payloads.ActivateRequestPay
 	w.started++
 	w.record(hEvent{Token: tok, ID: id, Kind: "start", ConnID: kmipserver.RemoteAddr(ctx), CtxMark: mark})
 	w.s.Eventf("handler start %s", id)
+	// detached: the placeholder accessors are called with a context that does not descend from the one the executor
+	// handed out (a batch-item middleware or the handler itself swapped it). Nothing can be stored through such a
+	// context, and whatever is read through it must be empty: it is nobody's request
+	detached := ctx.Value(detachedKey{}) != nil
+	detSet := false
+	octx := ctx
 	defer func() {
 		w.running--
-		w.record(hEvent{Token: tok, ID: id, Kind: "end", ConnID: kmipserver.RemoteAddr(ctx)})
+		w.record(hEvent{Token: tok, ID: id, Kind: "end", ConnID: kmipserver.RemoteAddr(octx), Err: detSet})
 		w.s.Eventf("handler end %s", id)
 	}()
 	var result error
@@ -159,6 +167,31 @@ func (w *serverWorld) handle(ctx context.Context, p *payloads.ActivateRequestPay
 				simrt.Yield("handler-yield")
 				w.s.YieldNow("handler-dally")
 			}
+		case a == "dx":
+			w.s.Fault("placeholder-through-detached-context")
+			ctx = context.WithValue(context.Background(), detachedKey{}, true)
+			detached = true
+		case detached && (a == "pr" || a == "pg"):
+			v, err := kmipserver.GetIdOrPlaceholder(ctx, "")
+			if a == "pr" {
+				v, err = kmipserver.IdPlaceholder(ctx), nil
+			}
+			if err != nil {
+				v = ""
+			}
+			w.record(hEvent{Token: tok, ID: id, Kind: "dread", Value: v})
+		case detached && (a == "pw" || a == "pz"):
+			// the library panics here ("not in a batch context"), the item fails; a tree that does not must still keep
+			// the value away from everybody else
+			detSet = true
+			w.setCount++
+			v := fmt.Sprintf("ph-%s-%d", id, w.setCount)
+			if a == "pz" {
+				v = ""
+			}
+			kmipserver.SetIdPlaceholder(ctx, v)
+		case detached && a == "pc":
+			kmipserver.ClearIdPlaceholder(ctx)
 		case a == "pr":
 			w.record(hEvent{Token: tok, ID: id, Kind: "read", Value: kmipserver.IdPlaceholder(ctx)})
 		case a == "pw":
@@ -277,6 +310,11 @@ type ReqSc struct {
 	Option     int      `json:"option,omitempty"`      // 0 unset 1 continue 2 stop 3 undo
 	CountDelta int      `json:"count_delta,omitempty"` // header BatchCount = len(items) + delta; -1000: -1, -2000: MinInt32, 1000: MaxInt32 (a tree that sizes a buffer by it dies of an out-of-memory fatal error: reported as <id>.process-killed)
 	Items      []ItemSc `json:"items"`
+	// IDs: how the Unique Batch Item IDs of the items are spelt (the statement only asks that each is echoed): 0 short
+	// text | 1 long text with a long common prefix | 2 every item the same id | 3 ids that differ only in the number of
+	// trailing zero bytes | 4 eight-byte big-endian counters (what the library's client sends) | 5 300 bytes, different
+	// in the last one only | 6 a single byte, 0x00 for the first item
+	IDs int `json:"ids,omitempty"`
 	// Hdr: optional header elements none of which may change what the properties state
 	// bits 0-1 BatchOrderOption (0 absent, 1 true, 2 false) | 4 AsynchronousIndicator=false | 8 MaximumResponseSize
 	// | 16 ClientCorrelationValue | 32 no TimeStamp | 64 Authentication (username/password credential)
@@ -287,6 +325,34 @@ type ReqSc struct {
 	// Pad: the first item carries a non-critical message extension with a byte string of this many bytes (large but
 	// legal requests: the server accepts up to 1 MiB)
 	Pad int `json:"pad,omitempty"`
+}
+
+// genIDs draws the spelling of the item ids (three quarters of the requests use the short text ids).
+func genIDs(g *simrt.Tape) int {
+	if g.Draw(4) != 0 {
+		return 0
+	}
+	return 1 + g.Draw(6)
+}
+
+func spellID(style int, id string, i int) []byte {
+	switch style {
+	case 1:
+		return []byte("unique-batch-item-identifier-" + id)
+	case 2:
+		return []byte("same-id")
+	case 3:
+		return append([]byte("item"), make([]byte, i)...)
+	case 4:
+		return []byte{0, 0, 0, 0, 0, 0, byte(i >> 8), byte(i)}
+	case 5:
+		b := bytes.Repeat([]byte{0xA5}, 300)
+		b[299] = byte(i)
+		return b
+	case 6:
+		return []byte{byte(i)}
+	}
+	return []byte(id)
 }
 
 // genHdr draws the optional header elements of a request (half of the requests carry none).
@@ -378,7 +444,7 @@ func buildRequest(rs *ReqSc, prefix string) *kmip.RequestMessage {
 			bi = kmip.RequestBatchItem{Operation: kmip.OperationActivate, RequestPayload: &payloads.ActivateRequestPayload{UniqueIdentifier: id + "|" + it.Tok}}
 		}
 		if !it.NoID {
-			bi.UniqueBatchItemID = []byte(id)
+			bi.UniqueBatchItemID = spellID(rs.IDs, id, i)
 		}
 		switch it.Ext {
 		case "plain":
